@@ -25,11 +25,12 @@ class Client(threading.Thread):
 
     def path(self):
         if self.phase == "resp_partial":
-            d = {"within": 0.3, "overrun": self.graceful + 2.0, "never": 3600}[self.appfin]
+            d = {"within": 0.3, "overrun": self.graceful + 2.0, "never": 3600, "late": (self.graceful - 1.5) / 3.0}[self.appfin]
             return "/stream?n=3&d=%s" % d
         if self.appfin == "never":
             return "/hang"
-        t = {"within": 0.8, "overrun": self.graceful + 3.0}[self.appfin]
+        # "late": finishes inside the graceful timeout, but later than --timeout after the signal
+        t = {"within": 0.8, "overrun": self.graceful + 3.0, "late": self.graceful - 1.5}[self.appfin]
         return "/sleep?t=%s" % t
 
     def run(self):
@@ -113,7 +114,7 @@ class Client(threading.Thread):
         return "nothing"
 
 
-def run_shutdown(wk, sig, phases, appfin="within", graceful=3, bind="tcp", slack_ms=2500, pre=()):
+def run_shutdown(wk, sig, phases, appfin="within", graceful=3, bind="tcp", slack_ms=2500, pre=(), timeout=60):
     """-> (trace, meta).  pre: signals sent to the master (0.6 s apart) after the clients are in their phase and
     before the final signal, e.g. ("TTIN", "TTOU") retires the busy worker first"""
     nworkers = len(phases) if wk == "sync" else 1
@@ -121,7 +122,7 @@ def run_shutdown(wk, sig, phases, appfin="within", graceful=3, bind="tcp", slack
     # "tcp2": a second listener that stays idle while the clients use the first one
     extra = ["-b", "127.0.0.1:%d" % rp.free_port()] if bind == "tcp2" else []
     s = rp.Server(wk, workers=nworkers, threads=threads, bind="tcp" if bind == "tcp2" else bind, pidfile=True,
-                  args=["--graceful-timeout", str(graceful), "--keep-alive", "5", "--timeout", "60"] + extra, name="c04")
+                  args=["--graceful-timeout", str(graceful), "--keep-alive", "5", "--timeout", str(timeout)] + extra, name="c04")
     try:
         s.start()
         wpids = s.wait_booted(nworkers)
@@ -197,7 +198,8 @@ def plan_for(ctx):
                 ("sync", "QUIT", ["app_running"], "within", "unix"),
                 ("sync", "TERM", ["app_running"], "overrun", "tcp", ("TTIN", "TTOU")),
                 ("gevent", "TERM", ["app_running", "resp_partial"], "within", "tcp2"),
-                ("sync", "TERM", ["app_running"], "within", "unix", ("USR2", "TERMNEW"))]
+                ("sync", "TERM", ["app_running"], "within", "unix", ("USR2", "TERMNEW")),
+                ("gthread", "TERM", ["app_running", "resp_partial"], "late", "tcp", (), 6, 2)]
     plan = []
     for wk in ("sync", "gthread", "gevent", "eventlet"):
         for bind in ("tcp", "unix"):
@@ -212,6 +214,7 @@ def plan_for(ctx):
         plan.append((wk, "TERM", ["app_running", "resp_partial", "head_partial"], "within", "tcp2"))
         plan.append((wk, "TERM", ["app_running"], "within", "unix", ("USR2", "TERMNEW")))
         plan.append((wk, "QUIT", ["idle"], "within", "unix", ("USR2", "TERMNEW")))
+        plan.append((wk, "TERM", ["app_running", "resp_partial"], "late", "tcp", (), 6, 2))
     return plan
 
 
@@ -223,11 +226,13 @@ def worker_side(ctx):
     def runner(i):
         wk, sig, phases, appfin, bind = plan[i][:5]
         pre = plan[i][5] if len(plan[i]) > 5 else ()
+        graceful = plan[i][6] if len(plan[i]) > 6 else 3
+        timeout = plan[i][7] if len(plan[i]) > 7 else 60
         try:
-            results[i] = run_shutdown(wk, sig, phases, appfin, graceful=3, bind=bind, pre=pre)
+            results[i] = run_shutdown(wk, sig, phases, appfin, graceful=graceful, bind=bind, pre=pre, timeout=timeout)
         except Exception as e:   # noqa
             results[i] = e
-    par = 6
+    par = 7
     for base in range(0, len(plan), par):
         ths = [threading.Thread(target=runner, args=(i,)) for i in range(base, min(base + par, len(plan)))]
         [t.start() for t in ths]
